@@ -128,12 +128,13 @@ Definition chan_send (direct : bool) (w : world) (c msg g : nat) (eid : N) : wor
     let w1 := wst w (fun s => enqueue (w_pin w) s c msg g) in
     chan_set w1 {| ch_id := c; ch_busy := true; ch_q := ch_q r ++ [(msg, g, eid)] |}
   else
-    let w1 := chan_set w {| ch_id := c; ch_busy := true; ch_q := ch_q r |} in
-    let '(s1, eu) := ev_unbusy (w_st w1) c in
-    let w2 := sink_add direct (wset_st w1 s1) eu (w_clock w + B_NS) in
-    let '(s2, ex) := ev_exit (w_st w2) g (Some c) msg in
-    let w3 := wset_eaux (wset_st w2 s2) ((ex, eid) :: w_eaux w2) in
-    sink_add direct w3 ex (w_clock w + B_NS + L_NS).
+    (* the exit of the message is scheduled before the unbusy notification (fix f99a7c7) *)
+    let '(s1, ex) := ev_exit (w_st w) g (Some c) msg in
+    let w1 := wset_eaux (wset_st w s1) ((ex, eid) :: w_eaux w) in
+    let w2 := sink_add direct w1 ex (w_clock w + B_NS + L_NS) in
+    let w3 := chan_set w2 {| ch_id := c; ch_busy := true; ch_q := ch_q r |} in
+    let '(s2, eu) := ev_unbusy (w_st w3) c in
+    sink_add direct (wset_st w3 s2) eu (w_clock w + B_NS).
 
 (* MessageExitingConnection::handle_with_sink (events.rs:62-129): the message is at gate [g],
    which it entered through slot [eid] *)
@@ -178,7 +179,7 @@ Definition register_timer (w : world) (i : nat) (task : nat) (deadline : N) : wo
   let m := getm w i in
   let next_id := length (hp (w_st w)) in            (* the slot object, if one has to be created *)
   let x := slot_insert deadline task (fun _ => next_id) (m_slots m) in
-  let w1 := if snd x then wst w (fun s => fst (new_slot s (m_queue m))) else w in
+  let w1 := if snd x then wst w (fun s => fst (new_slot (w_pin w) s (m_queue m))) else w in
   let sl := match find (fun p => fst (fst p) =? deadline) (fst x) with Some p => snd (fst p) | None => 0%nat end in
   let w2 := wst w1 (fun s => st_weak s task 0 sl) in
   updm w2 i (fun r => mset_slots r (fst x)).
